@@ -249,7 +249,8 @@ func (r *cacheRun) step(w *traceWriter, kind opKind, k int, ttl int64, cost int6
 	watch(fmt.Sprintf("trace %d op %d kind %d key %d", r.tid, r.opi, kind, k))
 	defer unwatch()
 	pol := policyOf(r.conf)
-	if r.holding && kind != opSetAsync {
+	fenced := r.holding && (kind == opSync || kind == opClear) // the fence is called while the writes are still queued
+	if r.holding && kind != opSetAsync && !fenced {
 		r.release()
 	} else if !r.holding {
 		r.waitApplied() // a SetAsync that lost a TryLock to the notifier is queued: let the worker apply it first
@@ -375,7 +376,11 @@ func (r *cacheRun) step(w *traceWriter, kind opKind, k int, ttl int64, cost int6
 			r.viol("C08", "Keys non-empty after Close")
 		}
 	case opClear:
-		c.Clear()
+		if fenced {
+			r.fence(func() { c.Clear() })
+		} else {
+			c.Clear()
+		}
 		op.I(7)
 		desc = "Clear()"
 		if !closed {
@@ -398,7 +403,12 @@ func (r *cacheRun) step(w *traceWriter, kind opKind, k int, ttl int64, cost int6
 		res.I(c.Size(), c.Cost(), st.Hits, st.Misses, st.Evictions, st.Expirations)
 		desc = fmt.Sprintf("Stats size=%d cost=%d h=%d m=%d ev=%d ex=%d", c.Size(), c.Cost(), st.Hits, st.Misses, st.Evictions, st.Expirations)
 	case opSync:
-		err := c.Sync()
+		var err error
+		if fenced {
+			r.fence(func() { err = c.Sync() })
+		} else {
+			err = c.Sync()
+		}
 		op.I(12)
 		if err != nil {
 			res.I(3)
@@ -636,7 +646,7 @@ func (r *cacheRun) step(w *traceWriter, kind opKind, k int, ttl int64, cost int6
 			if len(post) != 0 {
 				r.viol("C01", desc+" left entries behind")
 			}
-			if len(notifs) != 0 && kind == opClear {
+			if len(notifs) != 0 && kind == opClear && !fenced {
 				// notifications staged by writes drained by the barrier are legitimate; entries cleared are not
 				for _, n := range notifs {
 					if pv, in := pre[n.k]; in && pv == n.v {
@@ -766,6 +776,43 @@ func (r *cacheRun) release() {
 		r.c.VerifHoldDrain(i, false)
 	}
 	r.waitApplied()
+}
+
+// fence runs a Sync/Clear while the batch is still queued behind the held tokens: the tokens are released only
+// after the call has put its barrier into every ring (or has returned early), then everything is applied.
+func (r *cacheRun) fence(call func()) {
+	h0 := make([]uint64, r.nsh)
+	for i := range h0 {
+		h0[i], _, _, _ = r.c.VerifRingState(i)
+	}
+	done := make(chan struct{})
+	go func() { call(); close(done) }()
+	t0 := time.Now()
+wait:
+	for time.Since(t0) < 2*time.Second {
+		select {
+		case <-done:
+			break wait
+		default:
+		}
+		all := true
+		for i := range h0 {
+			if h, _, _, _ := r.c.VerifRingState(i); h == h0[i] {
+				all = false
+			}
+		}
+		if all {
+			break
+		}
+		runtime.Gosched()
+	}
+	r.holding = false
+	for i := 0; i < r.nsh; i++ {
+		r.c.VerifHoldDrain(i, false)
+	}
+	<-done
+	r.waitApplied()
+	r.m.count("fenced_batches")
 }
 
 // waitApplied waits until every ring is empty and every drain token free: all accepted writes are applied.
